@@ -317,11 +317,12 @@ namespace occa {
 
     kernelProps = kernelProperties(props);
 
-    kernelHash = (
-      hash()
-      ^ modeDevice->kernelHash(kernelProps)
-      ^ kernelHeaderHash(kernelProps)
-      ^ sourceHash
+    // Position-dependent combination (not XOR): equal parts must not cancel
+    kernelHash = occa::hash(
+      hash().getFullString()
+      + modeDevice->kernelHash(kernelProps).getFullString()
+      + kernelHeaderHash(kernelProps).getFullString()
+      + sourceHash.getFullString()
     );
 
     kernelHash = applyDependencyHash(kernelHash);
